@@ -392,14 +392,29 @@ func (sm *SealManager) updateRootRotation(ctx context.Context, ns *namespace.Nam
 
 func (sm *SealManager) performRootRotation(ctx context.Context, ns *namespace.Namespace, newSealKey []byte, rotationConfig *SealConfig, seal Seal) error {
 	isShamirSeal := seal.BarrierType() == vaultseal.WrapperTypeShamir
+	keysStored := false
 	if isShamirSeal {
 		shamirWrapper, err := seal.GetShamirWrapper()
+		var oldSealKey []byte
 		if err == nil {
+			oldSealKey, _ = shamirWrapper.KeyBytes(ctx)
 			err = shamirWrapper.SetAesGcmKeyBytes(newSealKey)
 		}
 		if err != nil {
 			return logical.CodedError(http.StatusInternalServerError, "failed to update barrier seal key: %w", err)
 		}
+
+		// As long as the stored keys have not been written with the new seal
+		// key, the previous one is what matches storage: put it back if we
+		// fail before that, or later writes of the stored keys would use a
+		// key that was never handed out.
+		defer func() {
+			if !keysStored && oldSealKey != nil {
+				if err := shamirWrapper.SetAesGcmKeyBytes(oldSealKey); err != nil {
+					sm.logger.Error("failed to restore barrier seal key", "error", err)
+				}
+			}
+		}()
 	}
 
 	b := sm.namespaceBarrier(ns.Path)
@@ -416,6 +431,7 @@ func (sm *SealManager) performRootRotation(ctx context.Context, ns *namespace.Na
 		sm.logger.Error("failed to store keys", "error", err)
 		return logical.CodedError(http.StatusInternalServerError, "failed to store keys: %w", err)
 	}
+	keysStored = true
 
 	// Rotate the barrier
 	if err := b.RotateRootKey(ctx, newRootKey); err != nil {
